@@ -70,12 +70,17 @@ class FileReader(AbstractReader):
         mibIndex = {}
         if os.path.exists(indexFile):
             try:
-                f = open(indexFile)
+                # (read as bytes and decoded the way MIB files are: a stray
+                # byte in one line does not make the whole index unusable)
+                f = open(indexFile, 'rb')
+                try:
+                    lines = [decode(x) for x in f.readlines()]
+                finally:
+                    f.close()
                 # (lines that do not hold a module name and a file name are skipped)
                 mibIndex = dict(
-                    [x.split()[:2] for x in f.readlines() if len(x.split()) > 1]
+                    [x.split()[:2] for x in lines if len(x.split()) > 1]
                 )
-                f.close()
                 debug.logger & debug.flagReader and debug.logger(
                     'loaded MIB index map from %s file, %s entries' % (indexFile, len(mibIndex)))
 
